@@ -106,7 +106,9 @@ def outputs_of(w, net, account, tag=""):
     other = 1 - coin
     # also paths that carry the OTHER network's coin type: the artefacts must still be tagged with the wallet's own network
     for path in ("m/44'/%d'/%d'/0/0" % (coin, account), "m/84'/%d'/0'" % coin, "m/49'/%d'/1'/1/5" % coin, "m/0/1", "m/7'", "m",
-                 "m/44'/%d'/0'" % other, "m/84'/%d'/2'/1/9" % other, "m/0'/%d'" % other, "m/49'/%d'/%d'" % (other, account)):
+                 "m/44'/%d'/0'" % other, "m/84'/%d'/2'/1/9" % other, "m/0'/%d'" % other, "m/49'/%d'/%d'" % (other, account),
+                 # purposes other than 44/49/84 that real wallets use (taproot, multisig, ...): plain BIP32 flavour, own network
+                 "m/86'/%d'/0'" % coin, "m/86'/%d'/0'/0/3" % coin, "m/48'/%d'/0'/2'" % coin, "m/45'/0", "m/1'/%d'" % coin, "m/85'/0'"):
         st, node = attempt(w.by_path, path)
         if st != "ok":
             viols.append(V(P + ":by_path:raised", "by_path(%r) raised %s" % (path, node)))
@@ -166,6 +168,10 @@ def chk_reimport(seed_i, version, export):
 HIST_OPS = [[net, req] for net in ("main", "test") for req in ("keys84", "keys49t", "addr", "wasabi", "gen")]
 
 
+def _ev_op(i):
+    return ["test" if i % 2 else "main", "keysN", i // 2]
+
+
 class TwoWalletHistories:
     """requests alternate between a mainnet and a testnet wallet of the same seed inside one process. canon = the history."""
 
@@ -175,9 +181,12 @@ class TwoWalletHistories:
     def run(self, hist):
         ws = {"main": full_wallet(SEEDS[0], False), "test": full_wallet(SEEDS[0], True)}
         viols, label = [], "init"
-        for n, (net, req) in enumerate(hist):
+        for n, op in enumerate(hist):
+            net, req = op[0], op[1]
             w = ws[net]
-            if req == "keys84":
+            if req == "keysN":
+                obj, mn = {k: v for k, v in w.node_extended_keys(w.by_path("m/84'/0'/%d'" % op[2])).items() if k != "path"}, 2
+            elif req == "keys84":
                 obj, mn = {k: v for k, v in w.node_extended_keys(w.by_path("m/84'/0'/0'")).items() if k != "path"}, 2
             elif req == "keys49t":
                 obj, mn = {k: v for k, v in w.node_extended_keys(w.by_path("m/49'/1'/0'")).items() if k != "path"}, 2
@@ -225,4 +234,8 @@ def run(ctx):
     agg = ctx.product("reimport-12-versions", cases, execute, chunk=1)
     tagged += sum(agg["x"])
     bfs(ctx, "two-wallet-histories", TwoWalletHistories(), 3 if ctx.thorough else 2, chunk=2)
+    from ..bfs import long_histories
+    long_histories(ctx, "two-wallet-histories+long", TwoWalletHistories(), rotations=5 if ctx.thorough else 2, rounds=1, chunk=1)
+    from ..bfs import eviction_probe
+    eviction_probe(ctx, "two-wallet-histories+revisits", TwoWalletHistories(), _ev_op, sizes=(1, 2, 3, 4, 5, 8, 9, 16, 17, 32, 33, 64, 65))
     return {"tagged_leaves_checked": tagged}
